@@ -50,8 +50,11 @@ Definition update_fragment_obs (c : cfg) (h : hstate) (ts : Z) (boundary : bool)
   let m := h_mux h in
   if m_opened m then
     let fslot := slot c m (m_nfrags m) in
-    let '(h1, p1, c1) := if force_split c m ts then reopen_obs c h ts true true now pending else (h, pending, false) in
-    let m2 := upd_dur (h_mux h1) fslot ts in
+    let forced := force_split c m ts in
+    let '(h1, p1, c1) := if forced then reopen_obs c h ts true true now pending else (h, pending, false) in
+    (* after a forced split the duration of the fragment just closed is final (lal fix of C06: the audio handed over
+       from inside openFragment may have moved fragTs, and the closed fragment was given the distance as its duration) *)
+    let m2 := if forced then h_mux h1 else upd_dur (h_mux h1) fslot ts in
     let h2 := with_mux h1 m2 in
     if f_ltb (fi_dur (get_slot m2 fslot)) (frag_target c) then (h2, p1, c1)
     else let '(h3, p3, c3) := reopen_obs c h2 ts boundary false now p1 in (h3, p3, c1 || c3)
@@ -109,8 +112,9 @@ Section Cfg.
   | GJoinTs (id : N)
   | GNop.                      (* an event that does not concern the TS side (the clock still advances) *)
 
+  (* startHlsIfNeeded: NewMuxer + Start in an empty directory (= HlsMuxer.start_mux c []) *)
   Definition g_init (hls : bool) : gstate :=
-    mk_gstate (if hls then Some (mk_hstate (new_mux c) [] [OMkdirAll PDir]) else None) [] None 0%Z.
+    mk_gstate (if hls then Some (mk_hstate (new_mux c) [] [OMkdirAll PDir; OReadFile PLive false]) else None) [] None 0%Z.
 
   (* the events, hls.Clock showing the event index; then the publisher leaves:
      Rtmp2MpegtsRemuxer.Dispose, hls.Muxer.Dispose.  The remuxer's outputs are
